@@ -29,8 +29,9 @@ type scenOp struct {
 	Op string `json:"op"`
 	DB string `json:"db"`
 	K  string `json:"k"`
-	V  int    `json:"v"`
-	ID int    `json:"id"`
+	V   int    `json:"v"`
+	ID  int    `json:"id"`
+	Via string `json:"via"`
 }
 
 type scenario struct {
@@ -227,6 +228,7 @@ func runHistory(sc *scenario, scen, crashAt int, keys, dbs []string, emit func(r
 			opener, flush = fp, fp.Flush
 		}
 		stores := map[string]kvdb.Store{}
+		longLived := map[string]kvdb.Batch{} // one long-lived batch per open store, reused with Reset
 		for i, op := range sc.Ops {
 			if i+1 == sc.Last {
 				before = ctl.n
@@ -267,6 +269,21 @@ func runHistory(sc *scenario, scen, crashAt int, keys, dbs []string, emit func(r
 				var err error
 				viaBatch := (scen+i)%3 == 0 // either way it is one durable write of one key
 				switch {
+				case op.Via == "lbatch":
+					b := longLived[op.DB]
+					if b == nil {
+						b = st.NewBatch()
+						longLived[op.DB] = b
+					}
+					b.Reset()
+					if op.V == 0 {
+						err = b.Delete([]byte(op.K))
+					} else {
+						err = b.Put([]byte(op.K), []byte(strconv.Itoa(op.V)))
+					}
+					if err == nil {
+						err = b.Write()
+					}
 				case viaBatch:
 					b := st.NewBatch()
 					if op.V == 0 {
@@ -303,6 +320,7 @@ func runHistory(sc *scenario, scen, crashAt int, keys, dbs []string, emit func(r
 				}
 				st.Drop()
 				delete(stores, op.DB)
+				delete(longLived, op.DB)
 			case "flush":
 				emit(rec{"op": "flush", "id": op.ID})
 				if err := flush([]byte{byte(op.ID)}); err != nil {
@@ -413,6 +431,9 @@ func CmdCrashRun(args []string) int {
 				stats[s.Comp+"_histories_with_large_values"]++
 				break
 			}
+		}
+		if last := s.Ops[len(s.Ops)-1]; last.Via == "lbatch" {
+			stats[s.Comp+"_last_call_through_long_lived_batch"]++
 		}
 		for k := before + 1; k <= n; k++ {
 			if _, _, err := runHistory(&s, scen, k, keys, dbs, emit); err != nil {
